@@ -467,7 +467,11 @@ func runC13(c *Ctx) {
 				}
 				okFrom := false
 				if lit := w.literalOf(from); lit != nil && msgVal != nil {
-					ib, ifl, ok1 := fieldLoad(lit.fields["IP"])
+					ipV := lit.fields["IP"]
+					if src := w.copiedFrom(ipV); src != nil {
+						ipV = src // a private copy of the decoded IP
+					}
+					ib, ifl, ok1 := fieldLoad(ipV)
 					pb, pfl, ok2 := fieldLoad(lit.fields["Port"])
 					// built by a by-value helper (peerAddr.UDPAddr()): the storage the copy was made from
 					if hc2, _ := callOf(w.resolveLoad(from)); hc2 != nil && ok1 && ok2 {
@@ -911,32 +915,54 @@ func ruleBindingFreshness(c *Ctx, rule string) {
 
 // ruleInboundAddrStorageFresh (C13.9): the source address ReadFrom reports for a relayed
 // datagram is built from the XOR-PEER-ADDRESS decoded from the Data indication. The decoder
-// (stun's GetFromAs) re-uses the IP slice of its target in place, and the address queued with
-// the payload shares that slice. The decode target must therefore be storage of this one
-// message — a local of the handler — never part of a pooled or otherwise re-used object:
-// the next indication would rewrite the address of a datagram that is still queued (or already
-// returned to the application).
+// (stun's GetFromAs) re-uses the IP slice of its target in place. So the IP that goes into a
+// net.UDPAddr / net.TCPAddr built on the inbound path either is a private copy, or is read
+// from a PeerAddress that is storage of this one message (a local of the handler) — never
+// the bytes of a pooled or otherwise re-used decode target: the next indication would
+// rewrite the address of a datagram that is still queued (or already returned to the
+// application).
 func ruleInboundAddrStorageFresh(c *Ctx, rule string) {
 	w := c.W
-	c.Rule(rule, "inbound address storage: every proto.PeerAddress decoded on the client's inbound path (handleSTUNMessage and its helpers) is a local variable of that invocation, not a field of a pooled or remembered object", 1)
+	c.Rule(rule, "inbound address storage: the IP of every net.UDPAddr / net.TCPAddr literal built on the client's inbound path (handleSTUNMessage and its helpers) is a fresh copy, or the IP field of a proto.PeerAddress that is a local variable of that invocation — not of a pooled or remembered object", 1)
 	handle := w.Func("turn", "Client", "handleSTUNMessage")
 	n := 0
-	w.eachInstrDeep(handle, func(in ssa.Instruction) {
-		call, ok := in.(*ssa.Call)
-		if !ok {
+	isNetAddr := func(t types.Type) bool {
+		nmd := namedOf(t)
+		return nmd != nil && nmd.Obj().Pkg() != nil && nmd.Obj().Pkg().Path() == "net" && (nmd.Obj().Name() == "UDPAddr" || nmd.Obj().Name() == "TCPAddr")
+	}
+	// judge: an address literal; via: the call (in the inbound body) of the small helper that
+	// builds it from a by-value copy of the decoded PeerAddress (peer.UDPAddr()), nil when the
+	// literal is in the body itself
+	judge := func(al *ssa.Alloc, via *ssa.Call) {
+		if !isNetAddr(al.Type()) {
 			return
 		}
-		cal := call.Call.StaticCallee()
-		if cal == nil || cal.Name() != "GetFrom" || len(call.Call.Args) < 1 {
-			return
-		}
-		if nmd := namedOf(call.Call.Args[0].Type()); nmd == nil || nmd.Obj().Name() != "PeerAddress" {
+		lit := w.literalOf(al)
+		if lit == nil || lit.fields["IP"] == nil {
 			return
 		}
 		n++
-		c.Anchor(rule, "peer address decode")
+		c.Anchor(rule, "peer address")
+		ip := lit.fields["IP"]
+		if w.freshBytes(ip, 0) {
+			c.OK(rule, fname(al.Parent()), "peer address", w.instrPos(al), "the IP is a private copy")
+			return
+		}
+		base, _, isL := fieldLoadAddrOfLoad(ip)
+		if !isL {
+			c.Bad(rule, fname(al.Parent()), "peer address", w.instrPos(al), "cannot identify the storage the address's IP is read from: "+w.key(ip))
+			return
+		}
+		if b, isAl := base.(*ssa.Alloc); isAl && via != nil {
+			if o := w.byValueOrigin(b, via); o != nil {
+				base = rootAddr(o)
+			} else {
+				c.Bad(rule, fname(al.Parent()), "peer address", w.instrPos(al), "cannot identify the value the helper's address is built from at "+w.instrPos(via))
+				return
+			}
+		}
 		org := map[string]bool{}
-		w.ptrOrigins(call.Call.Args[0], 5, map[ssa.Value]bool{}, org)
+		w.ptrOrigins(base, 5, map[ssa.Value]bool{}, org)
 		var bad []string
 		for k := range org {
 			if k != "fresh" {
@@ -945,14 +971,33 @@ func ruleInboundAddrStorageFresh(c *Ctx, rule string) {
 		}
 		sort.Strings(bad)
 		if len(bad) == 0 && org["fresh"] {
-			c.OK(rule, fname(call.Parent()), "peer address decode", w.instrPos(in), "decoded into a local of this invocation")
+			c.OK(rule, fname(al.Parent()), "peer address", w.instrPos(al), "the IP is read from a PeerAddress local to this invocation")
 		} else {
-			c.Bad(rule, fname(call.Parent()), "peer address decode", w.instrPos(in), fmt.Sprintf("the peer address of an inbound indication is decoded into storage that outlives the message (%v): the decoder rewrites the IP bytes in place, so the source address of a datagram still queued for ReadFrom — or already returned by it — changes to that of a later datagram's peer", bad))
+			c.Bad(rule, fname(al.Parent()), "peer address", w.instrPos(al), fmt.Sprintf("the IP of the peer address handed on shares its bytes with decode storage that outlives the message (%v): the decoder rewrites them in place, so the source address of a datagram still queued for ReadFrom — or already returned by it — changes to that of a later datagram's peer", bad))
+		}
+	}
+	w.eachInstrDeep(handle, func(in ssa.Instruction) {
+		switch x := in.(type) {
+		case *ssa.Alloc:
+			judge(x, nil)
+		case *ssa.Call:
+			h := x.Call.StaticCallee()
+			if h == nil || !w.IsMod[h] || len(h.Blocks) == 0 || w.singleSiteCI(h) == ssa.CallInstruction(x) {
+				return
+			}
+			if res := h.Signature.Results(); res.Len() != 1 || !isNetAddr(res.At(0).Type()) {
+				return
+			}
+			w.eachInstr(h, func(in2 ssa.Instruction) {
+				if al, ok := in2.(*ssa.Alloc); ok {
+					judge(al, x)
+				}
+			})
 		}
 	})
 	if n == 0 {
-		c.Anchor(rule, "peer address decode")
-		c.Bad(rule, fname(handle), "peer address decode", w.pos(handle.Pos()), "no XOR-PEER-ADDRESS decode on the inbound path: anchor gone")
+		c.Anchor(rule, "peer address")
+		c.Bad(rule, fname(handle), "peer address", w.pos(handle.Pos()), "no peer address is built on the inbound path: anchor gone")
 	}
 }
 
@@ -987,6 +1032,30 @@ func ruleNetipUnmapped(c *Ctx, rule string, pkgs ...string) {
 					}
 				}
 				continue
+			case *ssa.Phi:
+				// merged with the other ways of obtaining the address: what happens to the merge
+				if ok, at := useOK(x, isAddrPort, depth+1); !ok {
+					return false, at
+				}
+				continue
+			case *ssa.Store:
+				// kept in a local variable: every load of it
+				if al, isAl := x.Addr.(*ssa.Alloc); isAl && x.Val == v && !w.escapesToWriters(al) {
+					bad := false
+					var where ssa.Instruction
+					for _, r2 := range *al.Referrers() {
+						if ld, isLd := r2.(*ssa.UnOp); isLd {
+							if ok, at := useOK(ld, isAddrPort, depth+1); !ok {
+								bad, where = true, at
+							}
+						}
+					}
+					if bad {
+						return false, where
+					}
+					continue
+				}
+				return false, r
 			case *ssa.Call:
 				switch stdCallee(&x.Call) {
 				case "(net/netip.Addr).Unmap":
